@@ -31,7 +31,10 @@ def gen_dag(rng):
             ps = rng.sample(commits, min(len(commits), rng.choice([1, 1, 2, 3])))
         # timestamps unrelated to the topology: children may be much older than parents
         date = rng.choice([1, 10, 10**9, 10**9 + i, 2 * 10**9 - i, rng.randrange(1, 2 * 10**9)])
-        commits.append(s.add({"kind": "commit", "tree": t, "parents": ps, "date": date, "msg": b"c%d\n" % i}))
+        # a merged signed tag leaves a mergetag header whose continuation lines may quote `parent <id>` of ANY commit: the
+        # deepest one so far is quoted, which is never a parent line of this commit
+        quoted = [commits[-1]] if commits and rng.random() < 0.25 else []
+        commits.append(s.add({"kind": "commit", "tree": t, "parents": ps, "date": date, "msg": b"c%d\n" % i, "quoted": quoted}))
     for i in rng.sample(commits, min(len(commits), rng.randrange(1, 4))):
         s.refs.append((b"refs/heads/b%d" % i, i))
     # a tag forest
